@@ -93,18 +93,19 @@ func init() {
 		}
 		p, ok := ext.Accepted()
 		// each offer alone against a fresh negotiator with the same configuration
-		var solo []string
+		var solo, soloAns []string
 		cur := a[0]
 		for _, it := range a[1:] {
 			if it == "reset" {
-				solo = append(solo, "r")
+				solo, soloAns = append(solo, "r"), append(soloAns, "-")
 				continue
 			}
 			if strings.HasPrefix(it, "cfg=") {
 				cur = it[4:]
-				solo = append(solo, "c")
+				solo, soloAns = append(solo, "c"), append(soloAns, "-")
 				continue
 			}
+			ans := "-"
 			solo = append(solo, guard(func() string {
 				fresh := wsflate.Extension{Parameters: parseCfg14(cur)}
 				acc, err := fresh.Negotiate(mkOption(it))
@@ -114,10 +115,12 @@ func init() {
 				if acc.Size() == 0 {
 					return "0"
 				}
+				ans = optStr(acc)
 				return "1"
 			}))
+			soloAns = append(soloAns, ans)
 		}
-		return fmt.Sprintf("%s acc=%d:%s solo=%s", strings.Join(items, ";"), b2i(ok), paramsStr(p), strings.Join(solo, ""))
+		return fmt.Sprintf("%s acc=%d:%s solo=%s soloans=%s", strings.Join(items, ";"), b2i(ok), paramsStr(p), strings.Join(solo, ""), strings.Join(soloAns, ";"))
 	}
 	ops["popt"] = func(a []string) string {
 		p := parseCfg14(a[0])
